@@ -10,6 +10,7 @@ import (
 	"flag"
 	"fmt"
 	"os"
+	"runtime/pprof"
 	"strings"
 
 	"verif/harness/chain"
@@ -24,7 +25,13 @@ func main() {
 	violPath := flag.String("violations", "violations.jsonl", "output: monitor violations")
 	replay := flag.String("replay", "", "evaluate the requests of this JSON-lines file instead of generating")
 	dbg := flag.Bool("dbg", false, "add a dbg field (error text, light-client calls) to every case")
+	prof := flag.String("cpuprofile", "", "write a CPU profile")
 	flag.Parse()
+	if *prof != "" {
+		pf, _ := os.Create(*prof)
+		pprof.StartCPUProfile(pf)
+		defer pprof.StopCPUProfile()
+	}
 
 	env := chain.NewEnv()
 	cs, err := lib.NewSink(*casesPath)
